@@ -161,7 +161,13 @@ def execute_large(case):
         m = (m & np.uint32(0x7F7FFFFF)) | ((m & np.uint32(1)) << np.uint32(31))  # finite float32 patterns of both signs
     m = m.astype(word)
     raw = [m[k].tobytes() for k in range(L)]
-    spec = synth.product_spec("1.1" if tc == "C*8" else "1.5", images=[synth.image_spec("HH", None, L, P, tc, samples=raw)])
+    lv = None
+    if case.get("fill"):
+        # the line prefix declares fill pixels left and right of the data pixels (consistently: they add up to the width);
+        # what is stored in those columns is still what the array holds
+        left, right = case["fill"]
+        lv = {("actual_count_of_left_fill_pixels", None): left, ("actual_count_of_data_pixels", None): P - left - right, ("actual_count_of_right_fill_pixels", None): right}
+    spec = synth.product_spec("1.1" if tc == "C*8" else "1.5", images=[synth.image_spec("HH", None, L, P, tc, samples=raw, line_values=lv)])
     files, _ = synth.build(spec)
     if case.get("pad"):
         name = synth.file_names(spec)["img"][0]
@@ -263,6 +269,9 @@ def large_plan(tier):
         for P in widths:
             for rpc in (2, 3, 1024):
                 cases.append({"type": tc, "L": 7, "P": P, "rpc": rpc, "fs": "mcfs", "pad": 0})
+    for tc in ("IU2", "C*8"):
+        for fill in ((1, 0), (0, 2), (2, 3), (3, 3), (0, 0)):
+            cases.append({"type": tc, "L": 6, "P": 12, "rpc": 4, "fs": "mcfs", "fill": list(fill)})
     # bytes behind the last record (files padded to a block size): never part of the image
     for tc, L, P in (("IU2", 10, 3), ("C*8", 7, 2)):
         for pad in (1, 86, 512):
